@@ -167,6 +167,7 @@ type fastResult struct {
 	timedOut bool      // budget exhausted, needs the alone re-run
 	resp     *Resp
 	cpu      float64
+	slowOK   bool // timed out in the shared worker but terminated without failure when re-run alone
 }
 
 // evalFast runs the case in the shared persistent worker.
@@ -360,6 +361,7 @@ func (e *engine) process(w *worker, c Case, st *stats, rec *vt.Rec, intact bool)
 		st.slow++
 		st.mu.Unlock()
 		rec.Label(sub, "slow-case-terminated-on-re-run", 1)
+		fr.slowOK = true
 	}
 	reproduced := false
 	for _, f := range fails {
@@ -565,7 +567,7 @@ func campaign(t *testing.T) {
 					}
 					c := Case{Base: names[i]}
 					viol, fr := e.process(w, c, st, rec, true)
-					if fr.timedOut || len(fr.fails) > 0 {
+					if (fr.timedOut && !fr.slowOK) || len(fr.fails) > 0 {
 						// went through the normal path (known finding or violation), and is not used as a base
 						for _, f := range viol {
 							report(c, f)
@@ -579,7 +581,7 @@ func campaign(t *testing.T) {
 					if fr.resp != nil && fr.resp.OpenErr == "" {
 						usable[i] = 2
 					} else {
-						usable[i] = 1
+						usable[i] = 1 // rejected with an error, or only slow under load
 					}
 				}
 			}()
@@ -640,6 +642,11 @@ func campaign(t *testing.T) {
 				for _, f := range viol {
 					report(c, f)
 				}
+				if i%5000 == 4999 && os.Getenv("VERIF_C07_DUMP") != "" {
+					st.mu.Lock()
+					dumpStats(st, env)
+					st.mu.Unlock()
+				}
 			}
 		}()
 	}
@@ -648,12 +655,17 @@ func campaign(t *testing.T) {
 	// 3. summary
 	st.mu.Lock()
 	defer st.mu.Unlock()
+	defer func() { _ = recover() }()
 	if st.unconfirmed > 0 {
 		rec.Note("shard %d: %d failures seen in a shared worker did not reproduce alone in a fresh worker (not counted)", env.Shard, st.unconfirmed)
 	}
 	if st.inconcl > 0 {
 		rec.Note("shard %d: %d re-runs inconclusive (starved of CPU)", env.Shard, st.inconcl)
 	}
+	dumpStats(st, env)
+}
+
+func dumpStats(st *stats, env vt.Env) {
 	if dump := os.Getenv("VERIF_C07_DUMP"); dump != "" {
 		_ = os.MkdirAll(dump, 0o755)
 		type row struct {
